@@ -5,6 +5,7 @@ import (
 	"go/constant"
 	"go/token"
 	"go/types"
+	"regexp"
 	"sort"
 	"strings"
 
@@ -373,6 +374,20 @@ func propC03(c *Ctx, r *Report) {
 				r.audited("C03-R6/unsigned-underflow", cons, c.ipos(bo), why)
 				return
 			}
+			// the same subtraction in a helper split off from the audited function (its operands may have become
+			// parameters of the helper): keyed by the owning reference function and the operands' types
+			audited := false
+			for _, on := range c.ownerNames(f) {
+				for k, why := range auditedSubs {
+					if looseSubKey(k) == looseSubKey(on+" "+desc) {
+						r.audited("C03-R6/unsigned-underflow", cons, c.ipos(bo), why)
+						audited = true
+					}
+				}
+			}
+			if audited {
+				return
+			}
 			r.viol("C03-R6/unsigned-underflow", cons, c.ipos(bo), "unsigned subtraction without a dominating comparison of its operands: wraps to a huge value when the subtrahend is larger")
 		})
 	}
@@ -711,3 +726,8 @@ func rulePegRequestComplete(c *Ctx, r *Report, rule string) {
 		r.check(len(bad) == 0, rule, "ApplyTransactionBatchesInHolding, batches with a PEG request", c.pos(hold.Pos()), fmt.Sprintf("%d height classes", n), strings.Join(bad, "; ")+": only the debit half of the conversion is applied")
 	}
 }
+
+var looseOperand = regexp.MustCompile(`\((parameter|variable|captured|local) ([^)#]*?)( #\d+)?\)`)
+
+// looseSubKey drops the distinction between a parameter, a local and a captured variable from an audit key.
+func looseSubKey(k string) string { return looseOperand.ReplaceAllString(k, "($2)") }
